@@ -45,7 +45,8 @@ def collect(run, rng, nworlds, nqueries, mode, thresholds_fn, quality, nsteps=(4
             for d in adocs.values():
                 d["b4"] = rng.choice([4, 4, 0.4, 1.2, 2.8, 13.2])
         plan = world.rand_plan(rng, adocs.keys())
-        w = world.World(adocs, plan, storage="ram", blocklimit=rng.choice([None, 1, 2, 3]))
+        il = rng.choice([None, None, 3, 5])
+        w = world.World(adocs, plan, storage="ram", blocklimit=rng.choice([None, 1, 2, 3]), inlinelimit=il)
         try:
             wname, wobj = rng.choice(weightings(mode))
             with w.ix.searcher(weighting=wobj) as s:
@@ -78,6 +79,7 @@ def collect(run, rng, nworlds, nqueries, mode, thresholds_fn, quality, nsteps=(4
                     meta.append({"q": aq, "target": kind, "leaf": leafno, "needs_current": nc, "weighting": wname,
                                  "plan": plan, "idx": idx, "matcher": type(m).__name__ if ok else None, "tree": repr(m)[:4000] if ok else "",
                                  "mode": mode, "program": rec.program, "adocs": adocs, "blocklimit": w.blocklimit,
+                                 "inlinelimit": il,
                                  "quality": quality})
                     if kind == "top" and mode == "exact" and ev and ev[0]["ev"] == "new":
                         qs.append({"q": aq, "obs": [{"kind": "list", "list": ev[0]["ref"], "cmp": "full",
@@ -94,7 +96,8 @@ def reexecute(mt, patch=None):
     Returns the new event list (what --replay and finding classification use)."""
     import contextlib
     adocs = mt["adocs"]
-    w = world.World(adocs, [tuple(s) for s in mt["plan"]], storage="ram", blocklimit=mt.get("blocklimit"))
+    w = world.World(adocs, [tuple(s) for s in mt["plan"]], storage="ram", blocklimit=mt.get("blocklimit"),
+                    inlinelimit=mt.get("inlinelimit"))
     try:
         wobj = dict(weightings(mt["mode"]))[mt["weighting"]]
         with w.ix.searcher(weighting=wobj) as s:
